@@ -41,7 +41,7 @@ Section Fragments.
       template_read_request tid defsize off = Ok rq ->
       exists k st' v,
         call st rq = (st', Some (mkRep v (if k <? avail off then Consts.INSUFFICIENT_PACKETS else Consts.SUCCESS)
-                                       (firstn (Z.to_nat k) (skipn (Z.to_nat off) blob))))
+                                       (firstn (Z.to_nat k) (skipn (Z.to_nat off) blob)) false))
         /\ Inv st' /\ 0 <= k <= avail off /\ (0 < avail off -> 1 <= k).
 
   Hypothesis peer : fragment_peer.
@@ -60,7 +60,7 @@ Section Fragments.
     assert (Hw : off <= want) by (unfold M in *; lia). assert (Hl : off <= L) by (unfold M in *; lia).
     destruct (req_ok off (proj1 Hoff) Hw Hl) as (rq & Erq). rewrite Erq.
     destruct (peer st off rq Hinv (proj1 Hoff) Hw Hl Erq) as (k & st' & v & Ecall & Hinv' & Hk & Hk1).
-    rewrite Ecall. cbn [p_status p_data].
+    rewrite Ecall. cbn [p_status p_data p_error_raises].
     assert (Hav : avail off = M - off) by (unfold avail, M; lia).
     assert (Hlen : length (firstn (Z.to_nat k) (skipn (Z.to_nat off) blob)) = Z.to_nat k).
     { rewrite firstn_length, skipn_length. unfold avail, L, M in *. lia. }
